@@ -174,6 +174,7 @@ Proof.
   (* the compiled program *)
   assert (Hc : exists pat, regcomp pat = Ok (Some (rs_prog rs))).
   { unfold rset_make in Mk. destruct (rset_build res [40%N] 2) as [[[sb g1] sg] gc].
+    destruct (existsb _ (somes res)); [discriminate|].
     destruct (regcomp (sb ++ [41%N])) as [[pr|]| |] eqn:E; cbn [bind] in Mk; try discriminate. inversion Mk; subst. cbn [rs_prog]. eauto. }
   destruct Hc as (pat & Hc). pose proof (regcomp_layout _ _ Hc) as Lay.
   assert (C : code_at (code (rs_prog rs)) 0 ([IMark 0] ++ emit (tr (tree (rs_prog rs))) 1 ++ [IMark 1; IMatch])) by (rewrite <- Lay; apply code_at_self).
